@@ -203,13 +203,39 @@ def tlc(spec, cfg, workdir, workers=None, timeout=600, env=None, simulate=None, 
     if env:
         e.update({k: str(v) for k, v in env.items()})
     r = TlcResult()
-    with open(outpath, "w") as fo:
-        try:
-            p = subprocess.run(cmd, cwd=SPECS, env=e, stdout=fo, stderr=subprocess.STDOUT, timeout=timeout)
-            r.rc = p.returncode
-        except subprocess.TimeoutExpired:
-            r.rc = 124
-            r.timed_out = True
+    # TLC reports progress once a minute. A run whose output stops growing for STALL_S seconds is stuck (seen once: a model that
+    # takes a minute printed its first progress line and then nothing for 50 minutes on an overloaded machine); it is killed
+    # and started again, once. Only the overall timeout makes the result `timed_out`.
+    STALL_S = 900
+    for attempt in (1, 2):
+        stalled = False
+        with open(outpath, "w") as fo:
+            p = subprocess.Popen(cmd, cwd=SPECS, env=e, stdout=fo, stderr=subprocess.STDOUT)
+            t_start, last_size, last_change = time.time(), -1, time.time()
+            while True:
+                try:
+                    r.rc = p.wait(timeout=5)
+                    break
+                except subprocess.TimeoutExpired:
+                    pass
+                now = time.time()
+                try:
+                    sz = os.path.getsize(outpath)
+                except OSError:
+                    sz = last_size
+                if sz != last_size:
+                    last_size, last_change = sz, now
+                if now - t_start > timeout or (attempt == 1 and now - last_change > STALL_S):
+                    stalled = now - t_start <= timeout
+                    p.kill()
+                    p.wait()
+                    r.rc = 124
+                    r.timed_out = not stalled
+                    break
+        if not stalled:
+            break
+        shutil.rmtree(meta, ignore_errors=True)
+        log("NOTE: TLC on %s produced no output for %d s; started again" % (os.path.basename(cfg), STALL_S))
     shutil.rmtree(meta, ignore_errors=True)
     r.wall = time.time() - t0
     r.outpath = outpath
